@@ -138,30 +138,45 @@ outcome of the step, the closing part leaves the process KILLED — or EXCEPTED 
 theorem C04_listener_pending_kill_enacted (n k : Nat) (l : LCfg) (r : StepEnd) (h : Pending k l.c) :
     KE (endOfStepL (fireN n) l r).c := endOfStepL_pending k l r h
 
-/-- **a kill issued by a listener or a state-event callback while the step is closing is enacted before the step ends**
-[F22, F25]: take any configuration in which a step is closing (`_stepping`, no transition in progress) with no kill recorded, a pause
-alias that points to a pause action and no owed kill outstanding; for every plan, nesting depth and outcome of the step: if during
-the closing part the oracle issues a `kill()` while the process is live — from `on_process_running/waiting/paused/played` or from the
-exiting / entering phase of a transition into a non-terminal state, possibly while another request (a pause) is being enacted — then
-when the closing part returns the process is KILLED (EXCEPTED if entering KILLED failed).  In particular the request is not
-cancelled by the `finally` of `step()`. -/
-theorem C04_listener_kill_enacted (n : Nat) (l : LCfg) (r : StepEnd) (hs : l.c.stepping = true) (htr : l.trans = none)
-    (hk : l.c.killing = none) (hp : PausingOk l.c) (hno : ¬ Owed l) :
-    Owed (endOfStepL (fireN n) l r) → KE (endOfStepL (fireN n) l r).c :=
-  endOfStepL_owed (fireN_good n) l r hs htr hk hp hno
+/-- **no stale kill, with listeners**: for every program, every plan of requests issued from inside notifications and every history
+of events, in the configuration reached: a recorded kill (`_killing`) is the pending interrupt action of the step in flight unless
+the process has terminated, the pause alias points to a pause action, and no transition is in progress.  (`KJ`, the invariant that
+is carried through every model function — every transition, every request of the oracle in every context, the closing part of
+every step, every event.) -/
+theorem C04_listener_no_stale_killing (P : Prog) (nf : Nat) (plan : Plan) (evs : List Ev) :
+    let l := runL P (initL nf plan) evs
+    (∀ k, l.c.killing = some k → terminal l.c.st.label = true ∨ Pending k l.c) ∧ PausingOk l.c ∧ l.trans = none :=
+  let h := runL_kj P (initL nf plan) evs (kj_init nf plan) rfl
+  ⟨h.1.kok, h.1.pok, h.2⟩
 
-/-- both cases together: the kill was recorded before the closing part (then it is the pending action: `C04_no_stale_killing`) or
-is issued during it -/
-theorem C04_listener_kill_never_lost (n : Nat) (l : LCfg) (r : StepEnd) (hs : l.c.stepping = true) (htr : l.trans = none)
-    (hk : ∀ k, l.c.killing = some k → Pending k l.c) (hp : PausingOk l.c) (hno : ¬ Owed l) :
-    (l.c.killing ≠ none ∨ Owed (endOfStepL (fireN n) l r)) → KE (endOfStepL (fireN n) l r).c := by
-  intro h
-  cases hkk : l.c.killing with
-  | some k => exact endOfStepL_pending k l r (hk k hkk)
-  | none =>
-    rcases h with h | h
-    · exact (h hkk).elim
-    · exact endOfStepL_owed (fireN_good n) l r hs htr hkk hp hno h
+/-- **a kill issued by a listener is never lost** [F22, F25]: for every program, plan and history, if the oracle has issued a
+`kill()` at a moment when the process was live and no transition into a terminal state was in progress — from
+`on_process_running/waiting/paused/played` or from the exiting / entering phase of a transition, inside or outside a step, also while
+another request was being enacted — then in the configuration reached the process is KILLED or EXCEPTED, or the kill is the pending
+interrupt action of the step in flight (and then `C04_listener_pending_kill_enacted`: that step ends KILLED / EXCEPTED). -/
+theorem C04_listener_kill_committed (P : Prog) (nf : Nat) (plan : Plan) (evs : List Ev) :
+    Owed (runL P (initL nf plan) evs) →
+    KE (runL P (initL nf plan) evs).c ∨ ∃ k, Pending k (runL P (initL nf plan) evs).c :=
+  runL_owed P nf plan evs
+
+/-- … hence, whenever no step is in progress, every such kill has taken effect -/
+theorem C04_listener_kill_effective_between_steps (P : Prog) (nf : Nat) (plan : Plan) (evs : List Ev)
+    (hs : (runL P (initL nf plan) evs).c.stepping = false) :
+    Owed (runL P (initL nf plan) evs) → KE (runL P (initL nf plan) evs).c := by
+  intro ho
+  rcases runL_owed P nf plan evs ho with h | ⟨k, hp⟩
+  · exact h
+  · have := hp.2.2.2.2.1; rw [hs] at this; cases this
+
+/-- **a kill issued while a step is closing has been enacted when the step ends** [F22, F25]: from any configuration that
+satisfies the invariant (every reachable one does: `runL_kj`) with no transition in progress, for every nesting depth and outcome of
+the step: if the oracle issues a `kill()` on the live process during the closing part (from a notification, or from the exiting /
+entering phase of a transition into a non-terminal state, possibly while a pause is being enacted), or had issued one before, then
+when the closing part returns the process is KILLED (EXCEPTED if entering KILLED or the step failed).  In particular the `finally`
+of `step()` does not cancel it. -/
+theorem C04_listener_kill_enacted (n : Nat) (l : LCfg) (r : StepEnd) (p : KJ l) (htr : l.trans = none) :
+    Owed (endOfStepL (fireN n) l r) → KE (endOfStepL (fireN n) l r).c :=
+  endOfStepL_owed (fireN_good n) l r p htr
 
 /-- **nothing requested during the closing part is left behind** [F25]: when the `while` loop of the closing part returns, the
 interrupt-action slot is empty, or its action is done (it ran, or was retracted / superseded), or the process has terminated — for
@@ -170,36 +185,26 @@ that is still live. -/
 theorem C04_listener_nothing_left_pending (n : Nat) (l : LCfg) (next : Option SObj) :
     Quiet (dispatchL (fireN n) l next) := dispatchL_quiet (fireN_adv n) l next
 
-/-- the invariant carried through the closing part (`CP` = stepping + `KJ`) also holds when it returns: a recorded kill is the
-pending action of the slot or the process terminated, the pause alias is a pause action -/
-theorem C04_listener_invariant_kept (n : Nat) (l : LCfg) (next : Option SObj) (p : CP l) (htr : l.trans = none) :
-    CP (dispatchL (fireN n) l next) ∧ (dispatchL (fireN n) l next).trans = none :=
-  dispatchL_cp (fireN_good n) l next p htr
-
-/-- What is NOT proved: that every configuration reached by `runL` satisfies the hypotheses of `C04_listener_kill_never_lost` at the
-moment a step starts closing (for the model without listeners this is `C04_no_stale_killing` + `run_pausingOk`; with listeners the
-invariant would have to be carried through every event as well, not only through the closing part).  The correspondence check
-compares the model with the real code on whole runs. -/
-def C04_listener_reachable_invariant : Prop :=
-  ∀ (P : Prog) (nf : Nat) (plan : Plan) (evs : List Ev),
-    let l := runL P (initL nf plan) evs
-    (∀ k, l.c.killing = some k → terminal l.c.st.label = true ∨ Pending k l.c) ∧ PausingOk l.c ∧ l.trans = none
-
 -- non-vacuity.  F25: `on_process_running` pauses, `on_process_paused` (while that pause is being enacted) kills: KILLED, with both
--- action futures resolved; the hypotheses of `C04_listener_kill_enacted` hold for the configuration in which that step closes.
+-- action futures resolved; the kill is owed; the configuration in which that step closes satisfies the invariant.
 section
 private def planF25 : Plan := [(.running, 1, .pause), (.paused, 1, .kill)]
 private def closing : LCfg := { c := { init 0 with stepping := true }, plan := planF25 }
 example : (runL sync2 (initL 0 planF25) [.tick]).c.st.label = .killed := by decide +kernel
+example : Owed (runL sync2 (initL 0 planF25) [.tick]) := ⟨.paused, by decide +kernel⟩
 example : (runL sync2 (initL 0 planF25) [.tick]).c.handed.map (actionStatus (runL sync2 (initL 0 planF25) [.tick]).c) = [.done, .cancelled] := by
   decide +kernel
-example : closing.c.stepping = true ∧ closing.trans = none ∧ closing.c.killing = none ∧ closing.issued = [] := by decide +kernel
-example : PausingOk closing.c := by intro i hi; cases hi
+example : KJ closing ∧ closing.trans = none :=
+  ⟨KJ.mk (fun k hk => by cases hk) (fun i hi => by cases hi) (fun ho => by obtain ⟨_, hm⟩ := ho; cases hm)
+    (fun ho => by obtain ⟨_, hm⟩ := ho; cases hm), rfl⟩
 example : Owed (endOfStepL (fireN 2) closing (.next (some (.running 0 [] [])))) := ⟨.paused, by decide +kernel⟩
 example : (endOfStepL (fireN 2) closing (.next (some (.running 0 [] [])))).c.st.label = .killed := by decide +kernel
 -- F22: a pause is pending when the step closes, `on_process_waiting` kills during the transition that the pause action performs
 private def waiter : Prog := fun fn _ _ _ => if fn = 0 then ⟨1, .ret (.wait 1)⟩ else ⟨0, .ret (.stop (some 7) true)⟩
 example : (runL waiter (initL 0 [(.waiting, 1, .kill)]) [.tick, .pause, .tick]).c.st.label = .killed := by decide +kernel
+-- a kill from `on_process_played` outside a step (the process waits for the pause to end) is owed and made at once
+example : Owed (runL waiter (initL 0 [(.played, 1, .kill)]) [.pause, .tick, .play]) ∧
+    (runL waiter (initL 0 [(.played, 1, .kill)]) [.pause, .tick, .play]).c.st.label = .killed := ⟨⟨.played, by decide +kernel⟩, by decide +kernel⟩
 -- a kill from the exiting phase of the transition into FINISHED is not owed (the transition cannot be abandoned): FINISHED
 example : (runL sync2 (initL 0 [(.exiting, 3, .kill)]) [.tick]).c.st.label = .finished ∧
     (runL sync2 (initL 0 [(.exiting, 3, .kill)]) [.tick]).issued = [(.exiting, .kill, false)] := by decide +kernel
